@@ -103,8 +103,8 @@ pub fn plan(prop: &str, tier: Tier, cfg_b: bool) -> Option<Plan> {
             r.fail_pct = 20;
             r.intr_pct = 20;
             r.reverse_pct = 50;
-            // fan-in / fan-out wider than any plausible narrow counter type
-            wide_every = if q { 3000 } else { 15_000 };
+            // fan-in / fan-out wider than any plausible narrow counter type (u8: 256)
+            wide_every = if q { 500 } else { 2_500 };
         }
         "C03" => {
             r.fail_pct = 8;
@@ -177,7 +177,12 @@ pub fn plan(prop: &str, tier: Tier, cfg_b: bool) -> Option<Plan> {
         rprof: r,
         bias,
         wide_every,
-        wide_sizes: if q { vec![65, 129, 300] } else { vec![65, 129, 300, 1100, 2100] },
+        wide_sizes: match (prop, q) {
+            ("C02", true) => vec![300, 300, 520, 129],
+            ("C02", false) => vec![300, 300, 520, 129, 1100],
+            (_, true) => vec![65, 129, 300],
+            (_, false) => vec![65, 129, 300, 1100, 2100],
+        },
         random_cases,
         exh_max_n: if q { 3 } else { 4 },
         exh_access,
@@ -600,7 +605,16 @@ pub fn run(opts: &Opts, cfg_b: bool) -> Option<Stats> {
         let mid = !wide && i % 40 == 13;
         let gs = if wide {
             let n = *rng.pick(&plan_ref.wide_sizes);
-            gen::wide_graph(&mut rng, n)
+            if prop == "C02" && rng.chance(3, 4) {
+                // dependency counts: a function with n-1 direct dependencies / dependents
+                let fam = if rng.chance(1, 2) { Family::FanIn } else { Family::FanOut };
+                let mut gp = plan_ref.gprof;
+                gp.hostile_calls = false;
+                gp.types = 0;
+                gen::random_graph_of(&mut rng, fam, n, &gp)
+            } else {
+                gen::wide_graph(&mut rng, n)
+            }
         } else if mid {
             let fam = *rng.pick(&[Family::Isolated, Family::FanOut, Family::FanIn, Family::Layered, Family::SparseEr]);
             let n = rng.range(17, 48);
